@@ -117,6 +117,10 @@ def discharge(F, fn, s, dbname, table_field_names):
             o = origin(fn, a[-1])
             if _fixed_len_slice(o):
                 return "fixed-length slice"
+        if m in ("slice", "split_at", "split_to", "split_off", "advance") and len(a) >= 2:
+            need = _range_need(origin(fn, a[1]))
+            if need is not None and _min_len_guard(fn, s["bb"], need):
+                return "dominated by `len >= %d`" % need
         return None
     if k == "Index":
         a = t.get("args", [])
@@ -217,6 +221,37 @@ def _len_guard(fn, bb, idx_op, recv):
                     ts = {show(t): cf for t, cf in fm.lin.terms.items()}
                     lens = [t for t in ts if "len(" in t]
                     if lens and ts[lens[0]] == -1 and fm.lin.k >= 1 and len(ts) == 2:
+                        return True
+            st.append(a)
+    return False
+
+
+def _range_need(t):
+    """minimum length a range/index argument requires, when constant"""
+    if t[0] == "const" and isinstance(t[1], int):
+        return t[1]
+    if t[0] == "agg" and t[1].split("::")[-2:-1] and "Range" in t[1]:
+        vals = [x[1] for x in t[2] if x[0] == "const" and isinstance(x[1], int)]
+        if len(vals) == len(t[2]) and vals:
+            return max(vals)
+    return None
+
+
+def _min_len_guard(fn, bb, need):
+    """some controlling edge says  need - len(x) <= 0"""
+    seen = set()
+    st = [bb]
+    forms = edge_forms(fn)
+    while st:
+        x = st.pop()
+        if x in seen:
+            continue
+        seen.add(x)
+        for (a, s) in control_deps(fn).get(x, set()):
+            for (b2, s2, fm, line) in forms:
+                if b2 == a and s2 == s and fm.rel == "<=" and len(fm.lin.terms) == 1:
+                    t, cf = list(fm.lin.terms.items())[0]
+                    if cf == -1 and "len(" in show(t) and fm.lin.k >= need:
                         return True
             st.append(a)
     return False
